@@ -37,7 +37,7 @@ def gen_case(rng, tier, i):
     clock = ["float", "float", "duration", "int"][(i // len(HIST)) % 4]      # every history meets every clock
     prog = gen_program(rng, clock=clock, n_events=rng.randint(4, 25), with_bad=False)
     if rng.random() < 0.85:
-        add_stats(rng, prog, watch=False)
+        add_stats(rng, prog, watch=False, plain=True)
     if rng.random() < 0.7:
         add_streams(rng, prog)
         if rng.random() < 0.5:
